@@ -133,8 +133,7 @@ def run(tier, replay=None):
         chk.sample({"id": keep[0]['id'], "symtab": recs[0]['symtab'], "first_lines": recs[0]['lines'][:4]})
         chk.assumptions += ["trace text is parsed by regex; program output is routed to a file stream so stdout carries only trace text",
                             "entries are recovered from the image by AsmLayout!Walk against the -S directive list"]
-        if len(recs) < 300:
-            raise vlib.MachineryError("vacuity: too few traces validated (%d)" % len(recs))
+        chk.vacuity(len(recs) < 300, "too few traces validated (%d)" % len(recs))
     finally:
         shutil.rmtree(d, ignore_errors=True)
     return chk.finish()
